@@ -5,7 +5,7 @@ CONSTANTS
   Bits = 3
   Fams = {"P", "S", "O", "L", "F", "T", "I"}
   WithBad = FALSE
-  WithInv = TRUE
+  WithInv = FALSE
   Dyn = FALSE
 VIEW View
 INVARIANT PlacementsExact
